@@ -75,3 +75,12 @@ def public_functional(f) -> bool:
     from ..values import FuncV
 
     return isinstance(f, FuncV) and f.module.name == "unit_scaling.functional" and "." not in f.qualname and not f.qualname.startswith("_")
+
+
+def is_callable_value(it, v) -> bool:
+    """A value the interpreter can call: a function, bound method, partial / builtin closure, or an
+    instance of a repository class defining __call__ (the repository is free to choose)."""
+    from ..absint import _Builtin
+    from ..values import Bound, FuncV
+
+    return isinstance(v, (FuncV, Bound, _Builtin)) or it.dunder(v, "__call__") is not None
